@@ -167,6 +167,7 @@ func runOne(t *testing.T, sc *Scenario, tape *Tape, tier string, run int, seed u
 	start := time.Now()
 	res = Result{Prop: sc.Prop, Scenario: sc.Name, Run: run, Seed: seed}
 	sim := NewSim(tape)
+	sim.Prop = sc.Prop
 	restore := SeedRandom(tape.SubSeed())
 	defer restore()
 	rc := &RunCtx{S: sim, T: t, Tier: tier, Res: &res}
@@ -357,6 +358,11 @@ func readReplay(t *testing.T, path string) *ReplayFile {
 func doReplay(t *testing.T, sc *Scenario) {
 	rf := readReplay(t, *fReplay)
 	res := runOne(t, sc, ReplayTape(rf.Tape), rf.Tier, rf.Run, rf.BaseSeed)
+	if *fTrace {
+		for _, l := range res.Trace {
+			fmt.Println("TRACE:", l)
+		}
+	}
 	res.Trace = nil
 	enc := json.NewEncoder(os.Stdout)
 	enc.Encode(&res)
@@ -387,11 +393,16 @@ func doShrink(t *testing.T, sc *Scenario) {
 		}
 		attempts++
 		res := runOne(t, sc, ReplayTape(tp), rf.Tier, rf.Run, rf.BaseSeed)
-		if res.Viol != nil && res.Viol.Class == rf.Class {
+		// the same violation = same class and same signature (so that
+		// minimisation cannot drift from a fresh violation to a known one)
+		same := func(v *Violation) bool {
+			return v != nil && v.Class == rf.Class && fmt.Sprint(v.Signature) == fmt.Sprint(map[string]any(rf.Signature))
+		}
+		if same(res.Viol) {
 			return &res, true
 		}
 		for i, v := range res.Soft {
-			if v.Class == rf.Class {
+			if same(v) {
 				res.Viol, res.Soft[i] = v, res.Viol
 				return &res, true
 			}
